@@ -8,6 +8,15 @@
 //verif:replace@C09e (*os.File).Read = c09eRead
 //verif:replace@C09e (*os.File).Close = c09eClose
 //verif:replace@C09e (*os.File).Stat = c09eFStat
+//verif:replace@C14f os.Getwd = c09eGetwd
+//verif:replace@C14f os.Stat = c09eStat
+//verif:replace@C14f os.ReadFile = c09eReadFile
+//verif:replace@C14f os/user.Lookup = c09eLookup
+//verif:replace@C14f os.Open = c09eOpen
+//verif:replace@C14f os.OpenFile = c09eOpenFile
+//verif:replace@C14f (*os.File).Read = c09eRead
+//verif:replace@C14f (*os.File).Close = c09eClose
+//verif:replace@C14f (*os.File).Stat = c09eFStat
 
 package server
 
@@ -24,6 +33,8 @@ import (
 	"github.com/mimecast/dtail/internal/io/dlog"
 	"github.com/mimecast/dtail/internal/source"
 	"github.com/mimecast/dtail/internal/verifrt"
+
+	gossh "golang.org/x/crypto/ssh"
 )
 
 // the machine: dserver runs in /srv/dtail as user "dserver" (HOME=/home/dserver);
@@ -34,16 +45,28 @@ var c09eFiles = map[string]string{
 	"/home/alice/.ssh/authorized_keys":     "toy K1 alice\n",
 	"/home/dserver/.ssh/authorized_keys":   "toy K3 ops\n",
 }
+// carol's cached key file exists but cannot be read (a directory in its place, wrong owner)
+var c09eUnreadable = map[string]bool{"/srv/dtail/cache/carol.authorized_keys": true}
+
+// VerifC09Key: a key of the machine model for harnesses of other packages
+func VerifC09Key(id byte) gossh.PublicKey { return c09Key{id} }
+
 var c09eHomes = map[string]string{"alice": "/home/alice", "dserver": "/home/dserver"}
 
 func c09eGetwd() (string, error) { return "/srv/dtail", nil }
 func c09eStat(name string) (os.FileInfo, error) {
+	if c09eUnreadable[name] {
+		return c09eInfo{0}, nil
+	}
 	if c, ok := c09eFiles[name]; ok {
 		return c09eInfo{int64(len(c))}, nil
 	}
 	return nil, errors.New("stat " + name + ": no such file or directory")
 }
 func c09eReadFile(name string) ([]byte, error) {
+	if c09eUnreadable[name] {
+		return nil, errors.New("read " + name + ": is a directory")
+	}
 	if c, ok := c09eFiles[name]; ok {
 		return []byte(c), nil
 	}
@@ -59,6 +82,9 @@ type c09eHandle struct {
 
 func c09eOpen(name string) (*os.File, error) { return c09eOpenFile(name, os.O_RDONLY, 0) }
 func c09eOpenFile(name string, flag int, perm os.FileMode) (*os.File, error) {
+	if c09eUnreadable[name] {
+		return nil, &iofs.PathError{Op: "open", Path: name, Err: iofs.ErrPermission}
+	}
 	if _, ok := c09eFiles[name]; !ok {
 		return nil, &iofs.PathError{Op: "open", Path: name, Err: iofs.ErrNotExist}
 	}
